@@ -496,6 +496,58 @@ theorem liftNames_ok (hmap : α → Ident) (x : Except Ingest.PyErr (Graph α)) 
     subst h
     exact ⟨g0, rfl, rfl, rfl, rfl, rfl, rfl, rfl⟩
 
+/-- **from_edge_list, string identifiers.** When some identifier does not read as an integer, the graph returned by
+    `from_edge_list` is named by the printed forms of the identifiers, and entry (i, j) is the value the
+    specification reads off the list of tuples for the identifiers named at i and j. -/
+theorem edge_list_entry_str (parse : String → Option Int) (edges : List EdgeTuple) (f : Flags) (g : Graph Ident)
+    (hwf : WellFormedTuples edges)
+    (hcl : classify parse (edges.map fun e => (e.1, e.2.1)) = .inr (edges.map fun e => (e.1.toStr, e.2.1.toStr)))
+    (h : fromEdgeList parse edges f = .ok g) :
+    ∃ rn cn : List String, g.rowNames = some (rn.map .str) ∧ g.colNames = some (cn.map .str) ∧
+      g.matrix.nRow = rn.length ∧ g.matrix.nCol = cn.length ∧
+      ∀ i j a b, rn[i]? = some a → cn[j]? = some b →
+        g.matrix.entry i j = specEntry f ((edges.map fun e => (e.1.toStr, e.2.1.toStr)).zip
+          (weightsOf (edges.map fun e => (e.1.toStr, e.2.1.toStr)) (tupleWeights edges))) a b := by
+  rw [edge_list_typed parse edges f hwf, hcl] at h
+  simp only at h
+  obtain ⟨g0, hg0, hm, _, hbip, hn, hnr, hnc⟩ := liftNames_ok _ _ _ h
+  obtain ⟨rn, cn, hrn, hcn, hr, hc, hent⟩ := edge_array_entry_named ltStr none _ _ f g0 (Or.inl rfl) hg0
+  refine ⟨rn, cn, ?_, ?_, by rw [hm]; exact hr, by rw [hm]; exact hc, ?_⟩
+  · unfold Graph.rowNames at hrn ⊢
+    rw [hbip, hn, hnr]
+    by_cases hb : g0.bipartite = true
+    · simp only [hb, if_true] at hrn ⊢; rw [hrn]; rfl
+    · have hb' : g0.bipartite = false := by simpa using hb
+      simp only [hb', Bool.false_eq_true, if_false] at hrn ⊢; rw [hrn]; rfl
+  · unfold Graph.colNames at hcn ⊢
+    rw [hbip, hn, hnc]
+    by_cases hb : g0.bipartite = true
+    · simp only [hb, if_true] at hcn ⊢; rw [hcn]; rfl
+    · have hb' : g0.bipartite = false := by simpa using hb
+      simp only [hb', Bool.false_eq_true, if_false] at hcn ⊢; rw [hcn]; rfl
+  · intro i j a b ha hb
+    rw [hm]
+    exact hent i j a b ha hb
+
+/-- **from_edge_list, integer identifiers, no reindexing.** When numpy builds an integer array (`rows`) from the
+    tuples, the graph carries no names and entry (i, j) is the value the specification reads off the list for
+    the integers (i, j). -/
+theorem edge_list_entry_int (parse : String → Option Int) (edges : List EdgeTuple) (f : Flags) (g : Graph Ident)
+    (rows : List (Int × Int)) (hwf : WellFormedTuples edges) (hr : f.reindex = false)
+    (hcl : classify parse (edges.map fun e => (e.1, e.2.1)) = .inl rows)
+    (h : fromEdgeList parse edges f = .ok g) :
+    g.names = none ∧ g.namesRow = none ∧ g.namesCol = none ∧
+    ∀ i j : Nat, g.matrix.entry i j
+      = specEntry f (rows.zip (weightsOf rows (tupleWeights edges))) (i : Int) (j : Int) := by
+  rw [edge_list_typed parse edges f hwf, hcl] at h
+  simp only at h
+  obtain ⟨g0, hg0, hm, _, _, hn, hnr, hnc⟩ := liftNames_ok _ _ _ h
+  obtain ⟨h1, h2, h3, _, _, hent⟩ := edge_array_entry_int rows _ f g0 hr hg0
+  refine ⟨by rw [hn, h1]; rfl, by rw [hnr, h2]; rfl, by rw [hnc, h3]; rfl, ?_⟩
+  intro i j
+  rw [hm]
+  exact hent i j
+
 /-- `from_adjacency_list` is `from_edge_list` on the pairs (node, neighbour), in order -/
 theorem adjacency_list_as_edges (parse : String → Option Int) (adj : List (List Ident)) (f : Flags) :
     fromAdjacencyList parse adj f
